@@ -163,8 +163,25 @@ def handler_comparators(path):
     return out
 
 
+def check_format_number(path):
+    """C/formatter.py _format_number must be exactly:
+         complex -> f"({x.real:.16}+I*{x.imag:.16})" ; float -> f"{x:.16}" ; else str(x)"""
+    tree = ast.parse(open(path).read())
+    fmt = [n for n in tree.body if isinstance(n, ast.ClassDef) and n.name == "Formatter"][0]
+    fn = [n for n in fmt.body if isinstance(n, ast.FunctionDef) and n.name == "_format_number"]
+    if len(fn) != 1:
+        raise TranslationError(f"{path}: _format_number not found")
+    body = [st for st in fn[0].body if not (isinstance(st, ast.Expr) and isinstance(st.value, ast.Constant))]
+    src = [ast.unparse(st) for st in body]
+    want = ["if isinstance(x, complex):\n    return f'({x.real:.16}+I*{x.imag:.16})'\nelif isinstance(x, float):\n    return f'{x:.16}'",
+            "return str(x)"]
+    if src != want:
+        raise TranslationError(f"{path}:{fn[0].lineno}: _format_number has a shape the printer model does not cover: {src!r}")
+
+
 def generate():
     repo = common.REPO
+    check_format_number(os.path.join(repo, "ffcx/codegeneration/C/formatter.py"))
     table, classes = parse_lnodes(os.path.join(repo, "ffcx/codegeneration/lnodes.py"))
     kinds = {}
     for cls, kind in KIND_OF_CLASS.items():
